@@ -121,6 +121,17 @@ class OSMRoadNetwork(RoadNetwork):
             raise Exception("Was not able to build link helper")
         else:
             self.min_speed_kmph: Kmph = min(link.speed_kmph for link in link_helper.links.values())
+            # the fastest any link covers straight-line distance; dividing by it never
+            # over-estimates a travel time, which keeps the A* search optimal
+            self.max_straight_line_speed_kmph: Kmph = max(
+                (
+                    H3Ops.great_circle_distance(graph.nodes[u]["geoid"], graph.nodes[v]["geoid"])
+                    / (d[TIME_WEIGHT] / SECONDS_IN_HOUR)
+                    for u, v, d in graph.edges(data=True)
+                    if d[TIME_WEIGHT] > 0
+                ),
+                default=0.0,
+            )
             # finish constructing OSMRoadNetwork instance
             self.graph = graph
             self.link_helper = link_helper
@@ -187,7 +198,9 @@ class OSMRoadNetwork(RoadNetwork):
             dist: Kilometers = H3Ops.great_circle_distance(
                 self.graph.nodes[source]["geoid"], self.graph.nodes[dest]["geoid"]
             )
-            time: Hours = dist / self.min_speed_kmph
+            if self.max_straight_line_speed_kmph <= 0:
+                return 0.0
+            time: Hours = dist / self.max_straight_line_speed_kmph
             return time * SECONDS_IN_HOUR
 
         # start path search from the end of the origin link, terminate search at the start of the
